@@ -137,6 +137,23 @@ func (a *NilAnalysis) condNumFacts(cond ssa.Value, taken bool, f nilFacts) {
 		if c.Op == token.NOT {
 			a.condNumFacts(c.X, !taken, f)
 		}
+	case *ssa.Phi:
+		// a && b (taken) or a || b (not taken) in value position: on this edge the right operand decided
+		var rhs ssa.Value
+		n := 0
+		for _, e := range c.Edges {
+			if kc, ok := e.(*ssa.Const); ok && kc.Value != nil && kc.Value.Kind() == constant.Bool {
+				if constant.BoolVal(kc.Value) == taken {
+					return
+				}
+				continue
+			}
+			rhs = e
+			n++
+		}
+		if n == 1 {
+			a.condNumFacts(rhs, taken, f)
+		}
 	case *ssa.BinOp:
 		op := c.Op
 		if !taken {
